@@ -258,7 +258,8 @@ def _init_worker(modname):
     _PLUGIN = importlib.import_module(modname)
 
 
-class _Timeout(Exception):
+class _Timeout(BaseException):
+    """not an Exception: a plugin's (or a migration script's) `except Exception` must not swallow the time-out"""
     pass
 
 
@@ -269,7 +270,9 @@ def _alarm(signum, frame):
 def _run_one(args):
     idx, human, tmo = args
     signal.signal(signal.SIGALRM, _alarm)
-    signal.alarm(tmo)
+    # fires again every few seconds after the limit: code that swallows the first one (`except BaseException`, a retry
+    # loop around a hanging call) is interrupted again until the case is left
+    signal.setitimer(signal.ITIMER_REAL, tmo, 3)
     try:
         r = _PLUGIN.run_case(human)
         if r is None:
@@ -281,7 +284,7 @@ def _run_one(args):
         import traceback
         r = {"hang": False, "harness_error": "%s: %s\n%s" % (type(e).__name__, e, traceback.format_exc()[-1500:])}
     finally:
-        signal.alarm(0)
+        signal.setitimer(signal.ITIMER_REAL, 0)
     r["idx"] = idx
     return r
 
@@ -457,10 +460,14 @@ def run_check(plugin_mod, tier, seed, replay=None):
         humans.extend(pl.generate(tier, seed))
     recs = run_impl(plugin_mod, humans, getattr(pl, "CASE_TIMEOUT", 20))
     # a time-out under machine load is not a hang: re-run each timed-out case alone with a generous limit
+    # (alone and with a generous limit; once a case is confirmed to hang, the remaining timed-out ones are not re-run)
+    confirmed_hang = False
     for k, r in enumerate(recs):
-        if r.get("hang"):
+        if r.get("hang") and not confirmed_hang:
             _init_worker(plugin_mod)
-            recs[k] = _run_one((r["idx"], humans[r["idx"]], 12 * getattr(pl, "CASE_TIMEOUT", 20)))
+            tmo0 = getattr(pl, "CASE_TIMEOUT", 20)
+            recs[k] = _run_one((r["idx"], humans[r["idx"]], max(120, 2 * tmo0)))
+            confirmed_hang = bool(recs[k].get("hang"))
     harness_errors = [r for r in recs if r.get("harness_error")]
     hangs = [r for r in recs if r.get("hang")]
     good = [r for r in recs if not r.get("hang") and not r.get("harness_error") and not r.get("skip")]
